@@ -104,3 +104,45 @@ const (
 	SegByte = segByte
 	SegRune = segRune
 )
+
+// PermuteInMapsKeys returns a MapOrderHook that, inside x/exp/maps.Keys, forks over every permutation of the
+// entries (up to max live entries; beyond that the insertion order is kept).
+func PermuteInMapsKeys(max int) func(ex *Exec, entries []*mapEntry) []*mapEntry {
+	return func(ex *Exec, entries []*mapEntry) []*mapEntry {
+		if ex.top == nil || ex.top.fn == nil || !containsStr(ex.top.fn.String(), "maps.Keys") {
+			return entries
+		}
+		var live []*mapEntry
+		for _, e := range entries {
+			if !e.dead {
+				live = append(live, e)
+			}
+		}
+		n := len(live)
+		if n < 2 || n > max {
+			return live
+		}
+		fact := 1
+		for i := 2; i <= n; i++ {
+			fact *= i
+		}
+		ex.permN++
+		t := ex.Input(fmt.Sprintf("perm_%d", ex.permN), 64)
+		ex.Assume(ex.tt.Cmp(OpULt, t, ex.tt.BV(uint64(fact), 64)))
+		idx := int(ex.concretize(t, fact, "map iteration order"))
+		// decode the permutation index (factorial number system)
+		pool := append([]*mapEntry(nil), live...)
+		out := make([]*mapEntry, 0, n)
+		for i := n; i >= 1; i-- {
+			f := 1
+			for j := 2; j < i; j++ {
+				f *= j
+			}
+			k := idx / f
+			idx %= f
+			out = append(out, pool[k])
+			pool = append(pool[:k], pool[k+1:]...)
+		}
+		return out
+	}
+}
